@@ -1421,7 +1421,7 @@ def one_gt(ctx, c):
             judge_projection(ctx, SP, SU, None, icls, icls, dict(W, invert=inv), coords)
 
 
-FAMILIES = {"mat": (one_case, 7500, 200000), "hist": (one_history, 1300, 18000),
+FAMILIES = {"mat": (one_case, 7500, 170000), "hist": (one_history, 1300, 16000),
             "derive": (one_derive, 1600, 24000), "gt": (one_gt, 700, 10000)}
 QUICK_TOTAL, THOROUGH_TOTAL = FAMILIES["mat"][1], FAMILIES["mat"][2]
 
